@@ -256,7 +256,14 @@ def real_processes(ctx, n_runs):
     u.samples = [dict(names=names, nproc=nproc, final_size=len(final))]
 
 
+def pre_build(ctx):
+    import gen_units
+    gen_units.pre_build(ctx, "translate_memory")
+
+
 def run(ctx):
+    import gen_units
+    gen_units.g_unit(ctx, "translate_memory")
     ctx.assumptions.append("each DictProxy operation (contains / getitem / setitem) is atomic; nobody deletes from the shared dictionary")
     u = ctx.unit("D:search(memory)", "D",
                  "search() with memory=True of rotating optimizers on small spaces (many revisits), bare and (score, dict) "
